@@ -105,3 +105,14 @@ Theorem C08_macd_constant {pw : PW} (cfg : macd_cfg) (c0 : candle (N := NumR)) k
   exists s0, macd_init (N := NumR) cfg c0 = Ok s0 /\
     fst (snd (macd_next (steps macd_next s0 (repeat c0 k)) c0)) = [0%R; 0%R].
 Proof. exact (macd_constant cfg c0 k). Qed.
+From Yata Require Import Indicators.Set2 Indicators.Set3.
+Theorem C08_rsi_constant {pw : PW} (cfg : rsi_cfg (N := NumR)) (c0 : candle (N := NumR)) k : rsi_validate cfg = true -> ma_len_ok (rc_ma cfg) ->
+  exists s0, rsi_init cfg c0 = Ok s0 /\ fst (snd (rsi_next (steps rsi_next s0 (repeat c0 k)) c0)) = [flit 1 2].
+Proof. exact (rsi_constant cfg c0 k). Qed.
+Theorem C08_dpo_constant {pw : PW} (ma : ma_cfg) src (c0 : candle (N := NumR)) k : (1 < ma_period ma < pmax)%Z -> ma_len_ok ma ->
+  exists s0, dpo_init ma src c0 = Ok s0 /\ fst (snd (dpo_next (steps dpo_next s0 (repeat c0 k)) c0)) = [0%R].
+Proof. exact (dpo_constant ma src c0 k). Qed.
+Theorem C08_trix_constant {pw : PW} p1 (signal : ma_cfg) src (c0 : candle (N := NumR)) k :
+  (2 < p1 <= pmax - 1)%Z -> (1 < ma_period signal)%Z -> ma_len_ok signal -> (4 <= pmax)%Z ->
+  exists s0, trix_init p1 signal src c0 = Ok s0 /\ fst (snd (trix_next (steps trix_next s0 (repeat c0 k)) c0)) = [0%R; 0%R].
+Proof. exact (trix_constant p1 signal src c0 k). Qed.
